@@ -836,13 +836,13 @@ class Simulation:
         elif name in ("fsync", "fdatasync"):
             ino = a.fds[op.fd]["ino"]
             st = _real["fstat"](op.fd)
-            data = os.pread(op.fd, st.st_size, 0) if (a.fds[op.fd]["flags"] & os.O_ACCMODE) != os.O_WRONLY else None
+            data = _real["pread"](op.fd, st.st_size, 0) if (a.fds[op.fd]["flags"] & os.O_ACCMODE) != os.O_WRONLY else None
             if data is None:
                 try:
                     with passthrough():
                         rfd = _real["open"](f"/proc/self/fd/{op.fd}", os.O_RDONLY)
                         try:
-                            data = os.pread(rfd, st.st_size, 0)
+                            data = _real["pread"](rfd, st.st_size, 0)
                         finally:
                             _real["close"](rfd)
                 except OSError:
